@@ -139,7 +139,7 @@ MatrixStmts == {
   Put(<<PP(AStr(k1), AStr(va)), PP(AStr(k1), AStr(vb)), PP(AStr(k2), AStr(va)), PP(AStr(k1), AStr(va))>>)
 }
 RejectedTexts == { "select * where", "select * where key = 1", "put ('a')", "delete where key ^= 1", "remove key",
-                   "select nosuch(key) where key = 'k1'", "put ('k9', value)", "delete where key = 'k1' limit", "selec * where key = 'k1'" }
+                   "select nosuch(key) where key = 'k1'", "delete where 1 = 1 | upper(key, 'x') = 'K1'", "select * where 1 = 1 | nosuchfn(key) = 'a'", "delete where 1 > 2 & strlen(key, key) = 2", "put ('k9', value)", "delete where key = 'k1' limit", "selec * where key = 'k1'" }
 
 -----------------------------------------------------------------------------
 VARIABLES st, store, pat, raw, stage
